@@ -27,6 +27,8 @@ type Net struct {
 	conns  []*Conn
 	dials  []*Dial
 	nextID int
+	// StepFn, when set, tells the scheduler step in which something happens (recorded by Conn.Close).
+	StepFn func() int
 }
 
 func NewNet() *Net { return &Net{} }
@@ -114,7 +116,7 @@ func (n *Net) Accept(d *Dial) *Conn {
 	}
 	d.done = true
 	n.removeDial(d)
-	c := &Conn{ID: len(n.conns), Addr: d.Addr, Tag: d.Tag, wake: make(chan struct{}, 1), wwake: make(chan struct{}, 1)}
+	c := &Conn{ID: len(n.conns), Addr: d.Addr, Tag: d.Tag, wake: make(chan struct{}, 1), wwake: make(chan struct{}, 1), stepFn: n.StepFn, ClosedStep: -1}
 	n.conns = append(n.conns, c)
 	d.res <- dialResult{c: c}
 	return c
@@ -180,6 +182,8 @@ type Conn struct {
 	ReadErrs   int // Read calls that returned an error
 	WriteErrs  int
 	ReadCalls  int
+	ClosedStep int // scheduler step in which the client closed the connection (-1: not closed)
+	stepFn     func() int
 }
 
 func (c *Conn) poke(ch chan struct{}) {
@@ -300,6 +304,9 @@ func (c *Conn) Close() error {
 		return net.ErrClosed
 	}
 	c.closed = true
+	if c.stepFn != nil {
+		c.ClosedStep = c.stepFn()
+	}
 	c.mu.Unlock()
 	c.poke(c.wake)
 	c.poke(c.wwake)
@@ -410,6 +417,13 @@ func (c *Conn) SetSendBuffer(n int) {
 }
 
 // ClientClosed reports whether the client closed its end.
+// ClientClosedStep returns the scheduler step in which the client closed the connection (-1 if it has not).
+func (c *Conn) ClientClosedStep() int {
+	c.mu.Lock()
+	defer c.mu.Unlock()
+	return c.ClosedStep
+}
+
 func (c *Conn) ClientClosed() bool {
 	c.mu.Lock()
 	defer c.mu.Unlock()
